@@ -415,6 +415,16 @@ func (g *cgen) expr(t *wty, depth int) *wexpr {
 			return &wexpr{k: "cast", ty: t, args: []*wexpr{m}, konst: true}
 		case r < 85:
 			return call(c.pick("min", "max"), g.leaf(t), g.leaf(t))
+		case r < 93 && t.isScalar():
+			// remainder on small integral values with one abstract-int and one abstract-float operand (or both float):
+			// WGSL `%` truncates (the result takes the sign of the dividend)
+			c.count("float-remainder:mixed")
+			a := int64(c.rng.Intn(41) - 20)
+			b := int32(1 + c.rng.Intn(7))
+			if c.chance(0.3) {
+				b = -b
+			}
+			return &wexpr{k: "fmix", ty: t, aval: a, bits: uint32(b), op: fmt.Sprint(c.rng.Intn(3)), konst: true}
 		}
 	}
 	return g.leaf(t)
